@@ -21,7 +21,9 @@
 (*               a write completing (convergence; writer not starved);     *)
 (*          (P4) tx_valid never waits more than TBound such cycles for the *)
 (*               PHY to accept the transmit command (transmitter not       *)
-(*               starved).                                                 *)
+(*               starved); a completed write that serves a control change  *)
+(*               made since the previous write restarts the count (writes  *)
+(*               have priority, one per new request).                      *)
 (***************************************************************************)
 EXTENDS UlpiCommon, FiniteSets
 
@@ -38,12 +40,14 @@ VARIABLES qdir,     \* DIR of the previous cycle
           cand,     \* [a |-> set of values requested for a since the previous write to a completed]
           wrAge,    \* link-owned cycles since a mismatch is outstanding without a write completing
           txAge,    \* link-owned cycles tx_valid has been waiting for its TXCMD to be accepted
+          chg,      \* the control inputs changed since the last completed write (such a write is progress
+                    \* on a new request: the waiting transmitter was overtaken legitimately)
           age0,     \* cycles since reset, saturating at Startup
           txOn,     \* the TXCMD of the current transmission was accepted
           lastWr,   \* ghost: [a, d, ok] last completed write and whether d was a requested value
           gin, gchk
 
-gvars == <<qdir, qphase, wcmd, wdata, phyReg, cand, wrAge, txAge, age0, txOn, lastWr, gin, gchk>>
+gvars == <<qdir, qphase, wcmd, wdata, phyReg, cand, wrAge, txAge, chg, age0, txOn, lastWr, gin, gchk>>
 
 NoReg == 64
 Regs == {FunctionControlAddr, OtgControlAddr} \cup ({X1Addr, X2Addr} \ {NoReg})
@@ -83,7 +87,7 @@ NoGOut == [do |-> 0, oe |-> 1, stp |-> 0]
 RegInit == /\ qdir = 0 /\ qphase = "idle" /\ wcmd = 0 /\ wdata = 0
            /\ phyReg = [a \in Regs |-> ResetVal(a)]
            /\ cand = [a \in Regs |-> {}]
-           /\ wrAge = 0 /\ txAge = 0 /\ age0 = 0 /\ txOn = FALSE
+           /\ wrAge = 0 /\ txAge = 0 /\ chg = FALSE /\ age0 = 0 /\ txOn = FALSE
            /\ lastWr = [a |-> 0, d |-> 0, ok |-> TRUE]
            /\ gin = NoGIn /\ gchk = "ok"
 
@@ -114,7 +118,8 @@ RegStep(i, o) ==
        /\ wrAge' = IF done \/ i.dir = 1 \/ ~Mismatch(i.c, regs1) THEN 0 ELSE Min(wrAge + 1, AgeCap)
        /\ txOn' = txOn1
        /\ age0' = Min(age0 + 1, Startup)
-       /\ txAge' = IF i.dir = 1 \/ i.txv = 0 \/ txOn1 THEN 0 ELSE Min(txAge + 1, AgeCap)
+       /\ txAge' = IF i.dir = 1 \/ i.txv = 0 \/ txOn1 \/ (done /\ chg) THEN 0 ELSE Min(txAge + 1, AgeCap)
+       /\ chg' = IF AgeCap = 0 THEN FALSE ELSE IF done THEN i.c # gin.c ELSE (chg \/ i.c # gin.c)
        /\ lastWr' = IF done THEN [a |-> WrA, d |-> wdata,
                                   ok |-> okA /\ wdata \in (cand[WrA] \cup {Req(WrA, i.c)})]
                     ELSE lastWr
